@@ -5,7 +5,17 @@
 // https://opensource.org/licenses/MIT.
 
 fn main() {
-    let args = std::env::args().collect::<Vec<String>>();
+    // std::env::args() panics on an argument that is not valid Unicode.
+    let args = match std::env::args_os()
+        .map(std::ffi::OsString::into_string)
+        .collect::<Result<Vec<String>, _>>()
+    {
+        Ok(args) => args,
+        Err(arg) => {
+            eprintln!("xargs: argument is not valid Unicode: {arg:?}");
+            std::process::exit(1);
+        }
+    };
     std::process::exit(findutils::xargs::xargs_main(
         &args
             .iter()
